@@ -264,7 +264,7 @@ func (e *Engine) call(st *State, fn *ssa.Function, args []Value, bind []Value, d
 	e.drain(rc)
 	nouts := len(rc.outs)
 	outs := e.mergeOutcomes(rc.outs)
-	if len(outs) == 1 && outs[0].Panic == nil && nouts > 1 && e.restrictSeq == seq0 {
+	if len(outs) == 1 && outs[0].Panic == nil && nouts > 1 && e.restrictSeq == seq0 && !e.NoPCRestore {
 		allRet := true
 		for _, o := range rc.outs {
 			if o.Panic != nil {
@@ -464,7 +464,7 @@ func (e *Engine) runTask(rc *runCtx, t task) {
 				if len(arr) == 0 {
 					return
 				}
-				if len(arr) == 1 && len(sub.outs) == 0 && e.restrictSeq == seq0 {
+				if len(arr) == 1 && len(sub.outs) == 0 && e.restrictSeq == seq0 && !e.NoPCRestore {
 					// every path of the region arrived here and none was restricted by an assumption:
 					// the disjunction of their conditions is the condition the region was entered with
 					arr[0].st.pc = pc0
@@ -561,6 +561,12 @@ func (e *Engine) spread(rc *runCtx, fr *frame, v ssa.Value, conts []cont, cur **
 }
 
 func (e *Engine) enter(st *State, fr *frame, b *ssa.BasicBlock) bool {
+	// back edge (the target dominates the source): the path must still be feasible, otherwise a loop
+	// whose exit condition is symbolic would be unrolled forever along an impossible path
+	if len(st.pc) > 0 && fr.visits[b.Index] > 0 && b.Dominates(fr.block) && !e.feasible(st) {
+		e.stats.Pruned++
+		return false
+	}
 	fr.prev = fr.block
 	fr.block = b
 	fr.ip = 0
